@@ -22,6 +22,19 @@ func (k *Sink) Violate(sig, what string, art interface{}) {
 	k.order = append(k.order, sig)
 }
 
+// Seen reports whether sig was already collected and, if so, counts one more occurrence (lets
+// callers skip formatting the description of a repeated violation).
+func (k *Sink) Seen(sig string) bool {
+	if v, ok := k.m[sig]; ok {
+		v.Count++
+		return true
+	}
+	return false
+}
+
+// Has reports whether sig was already collected, without counting.
+func (k *Sink) Has(sig string) bool { _, ok := k.m[sig]; return ok }
+
 // MergeInto hands the collected violations to the run.
 func (k *Sink) MergeInto(r *evid.Run) {
 	for _, s := range k.order {
